@@ -83,9 +83,13 @@ pub enum Write {
     LocalSetEmptyAfterDelete,
     /// the copy holds the key's tombstone; a later delta brings the key back with the value ""
     ReplEmptyAfterTombstone,
+    /// the copy (0,2) is reset by a delta (watermark 5, from 0) that carries the key at version 6
+    ReplResetBringsKey,
+    /// the copy was reset before the subscriptions were taken; a later incremental delta brings the key
+    ReplAfterReset,
 }
 
-pub const WRITES: [Write; 14] = [
+pub const WRITES: [Write; 16] = [
     Write::LocalSetNew,
     Write::LocalSetSame,
     Write::LocalSetTtl,
@@ -100,6 +104,8 @@ pub const WRITES: [Write; 14] = [
     Write::CatchupNewer,
     Write::LocalSetEmptyAfterDelete,
     Write::ReplEmptyAfterTombstone,
+    Write::ReplResetBringsKey,
+    Write::ReplAfterReset,
 ];
 
 /// Runs one scenario; returns (observed calls, expected calls).
@@ -120,7 +126,12 @@ pub fn scenario(prefixes: &[(String, Life)], key: &str, write: Write) -> Result<
             node.cc.verif_process_message(real::build_real(&Msg::Syn { digest: vec![DigestEntry { id: x.clone(), heartbeat: 1, gc: 0, mv: 0 }], cluster_id: "c".into() }).unwrap());
             node.cc.verif_process_message(real::build_real(&Msg::Ack { ops: vec![Op::Node { id: x.clone(), gc: 0, from: 0 }, kv("other", "o", 1, 0), kv(key, "", 2, 1)] }).unwrap());
         }
-        Write::ReplNewer | Write::ReplStale | Write::ReplTombstone | Write::ReplTtl | Write::CatchupNewer => {
+        Write::ReplAfterReset => {
+            node.cc.verif_process_message(real::build_real(&Msg::Syn { digest: vec![DigestEntry { id: x.clone(), heartbeat: 1, gc: 0, mv: 0 }], cluster_id: "c".into() }).unwrap());
+            node.cc.verif_process_message(real::build_real(&Msg::Ack { ops: vec![Op::Node { id: x.clone(), gc: 0, from: 0 }, kv("other", "o", 1, 0), kv(key, "old", 2, 0)] }).unwrap());
+            node.cc.verif_process_message(real::build_real(&Msg::Ack { ops: vec![Op::Node { id: x.clone(), gc: 5, from: 0 }, kv("other", "o2", 6, 0)] }).unwrap());
+        }
+        Write::ReplNewer | Write::ReplStale | Write::ReplTombstone | Write::ReplTtl | Write::CatchupNewer | Write::ReplResetBringsKey => {
             node.cc.verif_process_message(real::build_real(&Msg::Syn { digest: vec![DigestEntry { id: x.clone(), heartbeat: 1, gc: 0, mv: 0 }], cluster_id: "c".into() }).unwrap());
             node.cc.verif_process_message(real::build_real(&Msg::Ack { ops: vec![Op::Node { id: x.clone(), gc: 0, from: 0 }, kv("other", "o", 1, 0), kv(key, "old", 2, 0)] }).unwrap());
         }
@@ -220,6 +231,20 @@ pub fn scenario(prefixes: &[(String, Life)], key: &str, write: Write) -> Result<
             let m = real::build_real(&Msg::Ack { ops: vec![Op::Node { id: x.clone(), gc: 0, from: 2 }, kv(key, "", 3, 0)] }).unwrap();
             guarded(|| node.cc.verif_process_message(m))?;
             expected(&active, key, "", "x")
+        }
+        Write::ReplResetBringsKey => {
+            let m = real::build_real(&Msg::Ack { ops: vec![Op::Node { id: x.clone(), gc: 5, from: 0 }, kv(key, "reset-new", 6, 0)] }).unwrap();
+            guarded(|| node.cc.verif_process_message(m))?;
+            let ns = node.cc.node_state(&real::to_real_id(&x)).ok_or("member lost")?;
+            if ns.last_gc_version() != 5 {
+                return Err("harness: the delta did not reset the copy".into());
+            }
+            expected(&active, key, "reset-new", "x")
+        }
+        Write::ReplAfterReset => {
+            let m = real::build_real(&Msg::Ack { ops: vec![Op::Node { id: x.clone(), gc: 5, from: 6 }, kv(key, "after-reset", 7, 0)] }).unwrap();
+            guarded(|| node.cc.verif_process_message(m))?;
+            expected(&active, key, "after-reset", "x")
         }
         Write::CatchupNewer => {
             // the catch-up entry point: `key` gets a newer value, `other` is supplied unchanged
@@ -321,7 +346,7 @@ pub fn run(tier: Tier, started: Instant) -> Vec<Part> {
 
     // B: one prefix x key x life cycle x write kind
     let mut b = Part::new("listeners/B-lifecycles-and-write-kinds");
-    b.rule = "every prefix (or none) x every key x subscription life-cycle {active, handle dropped, forever, subscribed twice} x write kind {local set new / same value, set_with_ttl new / same, delete, delete_after_ttl, replicated newer set, replicated stale entry alongside a fresh one, replicated tombstone, replicated TTL entry, first replicated entry of a member via SYN-ACK, catch-up entry point, local set of \"\" after a delete, replicated \"\" after a tombstone}; same oracle; deletions, no-ops, stale updates and dropped handles must produce no call".into();
+    b.rule = "every prefix (or none) x every key x subscription life-cycle {active, handle dropped, forever, subscribed twice} x write kind {local set new / same value, set_with_ttl new / same, delete, delete_after_ttl, replicated newer set, replicated stale entry alongside a fresh one, replicated tombstone, replicated TTL entry, first replicated entry of a member via SYN-ACK, catch-up entry point, local set of \"\" after a delete, replicated \"\" after a tombstone, key brought by a delta that resets the copy, key brought by an incremental delta after the copy was reset}; same oracle; deletions, no-ops, stale updates and dropped handles must produce no call".into();
     let mut psets: Vec<Option<String>> = vec![None];
     psets.extend(all.iter().cloned().map(Some));
     b.bounds = json!({"prefixes": psets.len(), "keys": all.len(), "lifecycles": 4, "write_kinds": WRITES.len()});
